@@ -68,8 +68,39 @@ def cases(draw):
     }
 
 
+@st.composite
+def rich_cases(draw):
+    """Deployments built around the interesting situation: one or two departing agents that host several linked
+    computations, each replicated on two or more survivors (every constraint kind gets a multi-variable scope)."""
+    na = draw(st.integers(4, 5))
+    departed = sorted(draw(st.lists(st.integers(0, na - 1), min_size=1, max_size=2, unique=True)))
+    survivors = [a for a in range(na) if a not in departed]
+    nc = draw(st.integers(3, 6))
+    comps = []
+    for i in range(nc):
+        host = draw(st.sampled_from(departed)) if i < 2 or draw(st.booleans()) else draw(st.sampled_from(survivors))
+        pool = [a for a in range(na) if a != host]
+        reps = set(draw(st.lists(st.sampled_from(pool), max_size=len(pool), unique=True)))
+        if host in departed:
+            reps |= set(draw(st.lists(st.sampled_from(survivors), min_size=min(2, len(survivors)),
+                                      max_size=len(survivors), unique=True)))
+        comps.append({"host": host, "replicas": sorted(reps), "footprint": draw(NUM)})
+    links = [[0, 1]]
+    for _ in range(draw(st.integers(1, 6))):
+        k = draw(st.integers(2, 3))
+        links.append(sorted(draw(st.lists(st.integers(0, nc - 1), min_size=k, max_size=k, unique=True))))
+    return {
+        "n_agents": na, "comps": comps, "links": links, "departed": departed,
+        "capacity": [draw(NUM) for _ in range(na)],
+        "hosting": [[draw(NUM) for _ in range(nc)] for _ in range(na)],
+        "comm_load": [[draw(NUM) for _ in range(nc)] for _ in range(nc)],
+        "route": [[draw(NUM) for _ in range(na)] for _ in range(na)],
+        "departed_order": draw(st.integers(0, 119)),
+    }
+
+
 def case_strategy(tier):
-    return cases()
+    return st.one_of(cases(), rich_cases())
 
 
 def _assignments(n):
